@@ -19,6 +19,8 @@
 //	has id / hasid id / loc id / prefs id / pts id / each / search q    likewise
 //	rels id / refs id / areas id / trav id     reference queries, sorted (no model answer: merged vs union)
 //	chain [k..] [k..]; cfind id; cloc id       the first files as NewWorldWithBase of the others
+//	istart cap=n; imerge k; iidx k q; ifind id; ihas id; ieach; isearch q   an incremental history: the same
+//	                                           questions before the first merge and after every merge (small lookup cache)
 //	src k t ns refs=[ns..] pts=[ns..]; build => builder-crash   a case the builder died on
 //
 // The Lean driver recomputes every merged answer from the per-file facts with B6.Model.Merged and
@@ -1000,6 +1002,71 @@ func runCase(t *Transcript, c *gcase, phase func(string)) {
 	for _, nq := range qs {
 		both("search "+nq.name, func(w b6.World) string { return rk.list(featIDs(w.FindFeatures(nq.q))) })
 	}
+	// an incremental history: lookups, EachFeature and searches before the first merge and after every merge, in
+	// a world whose lookup cache holds only `capacity` features (0: the default of 4000) - ids that only become
+	// present with a later file, repeated lookups (cache hits) and more distinct paths than the cache holds
+	capacity := []int{1, 2, 4, 0}[(ids[len(ids)/2].Value+uint64(len(ids)))%4]
+	iw := compact.NewWorld()
+	if capacity > 0 {
+		iw.VerifSetCacheCapacity(capacity)
+	}
+	t.Op(fmt.Sprintf("istart cap=%d", capacity), "-")
+	iqs := []namedQuery{qs[0], qs[1], qs[13]}
+	for step := 0; step <= len(c.order); step++ {
+		if step > 0 {
+			k := c.order[step-1]
+			st := "ok"
+			if err := iw.Merge(datas[k]); err != nil {
+				st = "err"
+			}
+			t.Op(fmt.Sprintf("imerge %d", k), st)
+			if st != "ok" {
+				break
+			}
+			for i := 0; i < step; i++ {
+				for _, nq := range iqs {
+					t.Op(fmt.Sprintf("iidx %d %s", c.order[i], nq.name), guard(func() string { return rk.list(featIDs(iw.VerifFindFeaturesInIndex(i, nq.q))) }))
+				}
+			}
+		}
+		for pass := 0; pass < 2; pass++ {
+			for j, id := range ids {
+				if pass == 1 && j%3 != 0 { // every third id again at once
+					continue
+				}
+				s := rk.id(id)
+				t.Op("ifind "+s, guard(func() string { return rk.content(iw.FindFeatureByID(id)) }))
+				if pass == 0 {
+					t.Op("ihas "+s, guard(func() string { return fmt.Sprint(iw.HasFeatureWithID(id)) }))
+				}
+			}
+		}
+		t.Op("ieach", guard(func() string {
+			var out []b6.FeatureID
+			if err := iw.EachFeature(func(f b6.Feature, g int) error {
+				out = append(out, f.FeatureID())
+				return nil
+			}, &b6.EachFeatureOptions{Goroutines: 1}); err != nil {
+				return "err"
+			}
+			return rk.list(out)
+		}))
+		for _, nq := range iqs {
+			t.Op("isearch "+nq.name, guard(func() string {
+				fs := iw.FindFeatures(nq.q)
+				var xs []string
+				for fs.Next() { // the id and whether the feature comes with it
+					x := rk.id(fs.FeatureID())
+					if fs.Feature() == nil {
+						x += "!nil"
+					}
+					xs = append(xs, x)
+				}
+				return hx.List(xs)
+			}))
+		}
+	}
+	t.Note(fmt.Sprintf("cache-capacity:%d", capacity))
 	t.Note(fmt.Sprintf("files:%d", len(c.files)))
 	tables := map[string]bool{}
 	for _, p := range ps {
